@@ -1,7 +1,11 @@
-(* C07: property theorems (statements proved so far; see bin/propcfg/C07.py for the status). *)
-From Coq Require Import List ZArith Bool Permutation.
-From DD Require Import Model.Circuit Model.Query Model.Enumerate Proofs.Semantics Proofs.CountsA.
+(* C07: property theorems (see bin/propcfg/C07.py for the status). *)
+From Coq Require Import List ZArith QArith Bool Permutation Lia.
+From DD Require Import Model.Circuit Model.Query Model.Enumerate Proofs.Semantics Proofs.DetCert
+     Proofs.CountsA Proofs.QueryDefs
+     Proofs.C07Defs Proofs.C07Valid Proofs.C07Urs Proofs.C07Indep
+     Proofs.C07IdealDefs Proofs.C07Uniform Proofs.C07Align.
 Import ListNotations.
+Open Scope Z_scope.
 
 (* The unbounded enumeration in the order enumerate_node produces it is exactly the model set:
    every model once, nothing else (all WF circuits). *)
@@ -15,3 +19,251 @@ Theorem C07_compatible_count : forall C n A, WF C n -> in_range n A ->
   nth (root C) (countsA A C) 0 = MCA C n A.
 Proof. exact countsA_MCA. Qed.
 Print Assumptions C07_compatible_count.
+
+(* ---------------------------------------------------------------------------------------------
+   (1) The contract of the random primitives: choices_ok d ts fuel amount i chs  :=
+       running sample_node_c (= sample_node plus one boolean) on the stream gives ok = true
+       (the model's own flag: the stream has a Split where an Or asks for one, a Perm of the right
+       length after every shuffle, and is not exhausted) and contract = true:
+         every Split v consumed at an Or node with children cs and requested amount k has
+           length v = length cs, all entries >= 0, zsum v = k, entry 0 at children with temp 0
+           (split_ok);
+         every Perm p consumed satisfies is_perm p.
+       Nothing else is assumed about the stream.  The instrumented function is the model: *)
+Theorem C07_contract_variant_is_sample_node : forall d ts fuel amount i chs,
+  fst (sample_node_c d ts fuel amount i chs) = sample_node d ts fuel amount i chs.
+Proof. exact sample_node_c_proj. Qed.
+Print Assumptions C07_contract_variant_is_sample_node.
+
+(* ---------------------------------------------------------------------------------------------
+   (2) Validity of sample_node for EVERY choice stream that respects the contract: exactly
+       `amount` samples; each one is, up to the order of its literals, a member of
+       filter (okA A) (enum i): a partial configuration of node i compatible with A.
+       temps_ok (what preprocess + execute_query leave in the temps; nothing is assumed about the
+       temps of true nodes) is a hypothesis here. *)
+Theorem C07_sample_node_valid : forall (d : ddnnf) (A : cfg) (ts : list Z),
+  idx_ok (circ d) = true -> temps_ok A (circ d) ts ->
+  forall fuel amount i chs,
+  (i < length (circ d))%nat -> (i < fuel)%nat -> 0 <= amount ->
+  amount = 0 \/ (nth i (circ d) FalseN <> TrueN /\ nth i ts 0 <> 0) ->
+  choices_ok d ts fuel amount i chs ->
+  exists l rest, sample_node d ts fuel amount i chs = (l, rest, true) /\
+                 length l = Z.to_nat amount /\
+                 Forall (fun s => exists c, In c (filter (okA A) (nth i (enums (circ d)) [])) /\
+                                            Permutation s c) l.
+Proof. exact sample_node_valid. Qed.
+Print Assumptions C07_sample_node_valid.
+
+(* ---------------------------------------------------------------------------------------------
+   (3) uniform_random_sampling.  exec_ok C n A s (hypothesis; the subject of C02): after
+       preprocess, execute_query returns MCA C n A and leaves temps_ok temps.
+       urs_choices_okb = choices_okb for the call of sample_node made by uniform_random_sampling.
+       Result: Some L with exactly `amount` elements, each a member of ModelsA C n A, i.e. a
+       complete configuration over 1..n in feature order that is a model and contains A
+       (C07_ModelsA_shape).  The hypothesis that the root is not a true node is necessary
+       (C07_true_root_refuted) and follows from 0 < n (C07_root_not_true). *)
+Theorem C07_valid : forall C n A s, WF C n -> exec_ok C n A s -> in_range n A ->
+  nth (root C) C FalseN <> TrueN ->
+  forall amount chs, 0 <= amount -> 0 < MCA C n A ->
+  urs_choices_okb (build C n) A amount chs s = true ->
+  exists L, snd (fst (uniform_random_sampling (build C n) A amount chs s)) = Some L /\
+            length L = Z.to_nat amount /\
+            Forall (fun m => In m (ModelsA C n A)) L.
+Proof. exact uniform_random_sampling_valid. Qed.
+Print Assumptions C07_valid.
+
+Theorem C07_ModelsA_shape : forall C n A m, In m (ModelsA C n A) ->
+  map Z.abs m = zseq 1 n /\ In m (Models C n) /\ (forall l, In l A -> In l m).
+Proof. exact ModelsA_shape. Qed.
+Print Assumptions C07_ModelsA_shape.
+
+Theorem C07_root_not_true : forall C n, WF C n -> (0 < n)%nat -> nth (root C) C FalseN <> TrueN.
+Proof. exact root_not_true. Qed.
+Print Assumptions C07_root_not_true.
+
+Theorem C07_true_root_refuted :
+  check_wf [TrueN] 0 = true /\ MCA [TrueN] 0 [] = 1 /\
+  snd (fst (uniform_random_sampling (build [TrueN] 0) [] 3 [] (fresh_scratch [TrueN]))) = Some [].
+Proof. exact urs_true_root_refuted. Qed.
+Print Assumptions C07_true_root_refuted.
+
+(* None iff no model contains A or a literal is out of range (for every stream) *)
+Theorem C07_unsat : forall C n A s, exec_ok C n A s -> forall amount chs,
+  snd (fst (uniform_random_sampling (build C n) A amount chs s)) = None <->
+  MCA C n A = 0 \/ (exists l, In l A /\ Z.of_nat n < Z.abs l).
+Proof. exact uniform_random_sampling_none. Qed.
+Print Assumptions C07_unsat.
+
+(* ---------------------------------------------------------------------------------------------
+   (4) The samples (and the ok flag) are a function of circuit, assumptions, amount and choice
+       stream: they do not depend on the incoming temps / partial derivatives. *)
+Theorem C07_function_of_choices : forall C n A amount chs s s', Clean C s -> Clean C s' ->
+  snd (fst (uniform_random_sampling (build C n) A amount chs s)) =
+  snd (fst (uniform_random_sampling (build C n) A amount chs s')) /\
+  snd (uniform_random_sampling (build C n) A amount chs s) =
+  snd (uniform_random_sampling (build C n) A amount chs s').
+Proof. exact urs_function_of_choices. Qed.
+Print Assumptions C07_function_of_choices.
+
+Theorem C07_scratch_independent : forall d A amount chs s s',
+  marks s = marks s' -> mdl s = mdl s' ->
+  snd (fst (uniform_random_sampling d A amount chs s)) =
+  snd (fst (uniform_random_sampling d A amount chs s')) /\
+  snd (uniform_random_sampling d A amount chs s) = snd (uniform_random_sampling d A amount chs s').
+Proof. exact urs_scratch_indep. Qed.
+Print Assumptions C07_scratch_independent.
+
+(* ---------------------------------------------------------------------------------------------
+   (5) Uniformity, idealised, amount = 1 (PARTIAL by nature).
+       joint1 (Proofs/C07IdealDefs.v) lists (choice stream, outcome, probability) for ideal
+       primitives: at an Or node the single sample goes to child k with probability
+       temp_k / temp_node (exact multinomial with one trial); every shuffle acts on <= 1 element
+       (the uniform permutation is the identity with probability 1); And nodes draw their children
+       independently.  law1 = (sort_abs outcome, probability) at the root.
+       Pcg32, the f64 weights (BigRational -> f64, * amount) and rand_distr's Binomial /
+       WeightedAliasIndex are OUTSIDE this model; they are only exercised by the chi-square run.
+       Hypothesis or_no_true: no Or node has a true child (a true node is hidden from Or nodes
+       by temp = 0 although it stands for one configuration, so uniformity fails otherwise). *)
+Definition or_no_true (C : circuit) : Prop :=
+  forall i cs c, (i < length C)%nat -> nth i C FalseN = Or cs -> In c cs -> nth c C FalseN <> TrueN.
+
+(* the outcomes of the ideal law are exactly the models containing A, each listed once, each with
+   probability 1 / MCA; stated as a law and as point masses *)
+Theorem C07_uniform_ideal_single : forall C n A ts,
+  WF C n -> in_range n A -> temps_ok A C ts -> or_no_true C -> 0 < MCA C n A ->
+  Permutation (map fst (law1 (build C n) ts)) (ModelsA C n A) /\
+  Forall (fun e => (snd e == 1 / inject_Z (MCA C n A))%Q) (law1 (build C n) ts) /\
+  forall m, (In m (ModelsA C n A) -> (mass (law1 (build C n) ts) m == 1 / inject_Z (MCA C n A))%Q) /\
+            (~ In m (ModelsA C n A) -> (mass (law1 (build C n) ts) m == 0)%Q).
+Proof.
+  intros C n A ts HWF HA Hts Hnt Hsat.
+  destruct (law1_uniform C n A ts HWF HA Hts Hnt Hsat) as [H1 H2].
+  split; [exact H1|]. split; [exact H2|]. intros m. exact (law1_mass C n A ts HWF HA Hts Hnt Hsat m).
+Qed.
+Print Assumptions C07_uniform_ideal_single.
+
+(* the same at every node: outcomes = filter (okA A) (enum i) up to order, probability 1/countsA i *)
+Theorem C07_uniform_ideal_single_node : forall d A ts,
+  idx_ok (circ d) = true -> temps_ok A (circ d) ts -> or_no_true (circ d) ->
+  forall i, (i < length (circ d))%nat -> forall f, (i < f)%nat -> nth i (countsA A (circ d)) 0 <> 0 ->
+  PermP (map e_out (joint1 d ts f i)) (filter (okA A) (nth i (enums (circ d)) [])) /\
+  Forall (fun e => (e_pr e == 1 / inject_Z (nth i (countsA A (circ d)) 0%Z))%Q) (joint1 d ts f i).
+Proof. exact joint1_uniform. Qed.
+Print Assumptions C07_uniform_ideal_single_node.
+
+(* the ideal law is a law about the MODEL's sample_node: each listed stream respects the contract,
+   is consumed entirely, and makes sample_node (amount 1) return the listed outcome *)
+Theorem C07_ideal_streams_run : forall d ts e,
+  idx_ok (circ d) = true -> circ d <> [] -> nth (rootn d) (circ d) FalseN <> TrueN ->
+  In e (joint1 d ts (length (circ d)) (rootn d)) ->
+  sample_node d ts (length (circ d)) 1 (rootn d) (e_chs e) = ([e_out e], [], true) /\
+  choices_ok d ts (length (circ d)) 1 (rootn d) (e_chs e).
+Proof. exact joint1_runs. Qed.
+Print Assumptions C07_ideal_streams_run.
+
+(* General amount k -- NOT proved.  Statement: with Split ~ Multinomial(k; temp_c / temp_node) at
+   every Or node and every Perm uniform on the permutations of its length, the law of the returned
+   list is the k-fold product of the uniform law:
+     forall (c_1, .., c_k) in (filter (okA A) (enum i))^k (positions of the enumeration as atoms),
+       Pr[ sample_node k i = (c_1, .., c_k) up to literal order ] = (1 / countsA i)^k
+   (in particular every position is uniform and the positions are independent).
+   Proof idea (KUS): Or: Pr[split = (k_c)] * prod_c (1/t_c)^(k_c) * #{perms placing the blocks on the
+   target pattern} / k! = k!/prod k_c! * prod (t_c/t)^(k_c) * prod (1/t_c)^(k_c) * prod k_c! / k!
+   = (1/t)^k; And: positions of independent i.i.d. lists are stitched position-wise.
+   Missing: a finite-distribution monad over sample lists with the multinomial and the uniform
+   permutation laws (Q-valued), the counting lemma "the number of permutations of 0..k-1 that map a
+   block pattern (k_c) onto a given target pattern is prod k_c!", and the summation over child
+   lists; none of this is developed. *)
+
+(* ---------------- non-vacuity: the hypotheses are satisfiable, the conclusions are not trivial *)
+
+(* (1 and 2) or (-1 and (2 or -2)), n = 2, assumption [2] *)
+Example ex_wf : WF ex_circ 2.
+Proof. apply check_wf_sound. vm_compute. reflexivity. Qed.
+
+Definition ex_s0 := fresh_scratch ex_circ.
+Definition ex_ts := [1; 1; 1; 1; 0; 1; 1; 2].
+
+Example ex_temps_ok : temps_ok [2] ex_circ ex_ts.
+Proof.
+  intros i Hi _. do 8 (destruct i as [|i]; [vm_compute; reflexivity|]). cbn in Hi. lia.
+Qed.
+
+Example ex_exec_ok : exec_ok ex_circ 2 [2] ex_s0.
+Proof.
+  intros s1 H. vm_compute in H. injection H as <-. split; [vm_compute; reflexivity|].
+  exact ex_temps_ok.
+Qed.
+
+Example ex_in_range : in_range 2 [2].
+Proof. intros l [<-|[]]. cbn. lia. Qed.
+
+Definition ex_chs : list choice :=
+  [Split [1; 2]; Perm [0%nat]; Perm [0%nat]; Perm [1%nat; 0%nat]; Split [2; 0];
+   Perm [1%nat; 0%nat]; Perm [0%nat; 1%nat]; Perm [2%nat; 0%nat; 1%nat]].
+
+Example ex_contract : urs_choices_okb ex_d [2] 3 ex_chs ex_s0 = true /\ MCA ex_circ 2 [2] = 2.
+Proof. vm_compute. split; reflexivity. Qed.
+
+Example ex_valid_instance :
+  snd (fst (uniform_random_sampling ex_d [2] 3 ex_chs ex_s0)) = Some [[-1; 2]; [1; 2]; [-1; 2]].
+Proof. vm_compute. reflexivity. Qed.
+
+(* a stream that violates the contract (the split sums to 2, 3 were requested) is accepted by the
+   model's ok flag and yields an invalid (empty) configuration: the contract is needed *)
+Example ex_contract_needed :
+  let bad := [Split [1; 1]; Perm [0%nat]; Perm [0%nat]; Perm [0%nat]; Split [1; 0]; Perm [0%nat];
+              Perm [0%nat]; Perm [2%nat; 0%nat; 1%nat]] in
+  urs_choices_okb ex_d [2] 3 bad ex_s0 = false /\
+  uniform_random_sampling ex_d [2] 3 bad ex_s0
+  = (fst (fst (uniform_random_sampling ex_d [2] 3 bad ex_s0)), Some [[]; [1; 2]; [-1; 2]], true).
+Proof. vm_compute. split; reflexivity. Qed.
+
+Example ex_or_no_true : or_no_true ex_circ.
+Proof.
+  intros i cs c Hi E Hc.
+  do 8 (destruct i as [|i];
+        [cbn in E; try discriminate; injection E as <-; cbn in Hc;
+         repeat (destruct Hc as [<-|Hc]; [cbn; discriminate|]); destruct Hc|]).
+  cbn in Hi. lia.
+Qed.
+
+Example ex_law1 :
+  map (fun e => (fst e, Qred (snd e))) (law1 ex_d ex_ts) = [([1; 2], (1 # 2)%Q); ([-1; 2], (1 # 2)%Q)] /\
+  ModelsA ex_circ 2 [2] = [[1; 2]; [-1; 2]].
+Proof. vm_compute. split; reflexivity. Qed.
+
+(* all hypotheses of C07_valid / C07_uniform_ideal_single hold together on the example *)
+Example ex_valid_applies :
+  exists L, snd (fst (uniform_random_sampling (build ex_circ 2) [2] 3 ex_chs ex_s0)) = Some L /\
+            length L = 3%nat /\ Forall (fun m => In m (ModelsA ex_circ 2 [2])) L.
+Proof.
+  apply (C07_valid ex_circ 2 [2] ex_s0 ex_wf ex_exec_ok ex_in_range).
+  - cbn. discriminate.
+  - lia.
+  - vm_compute. reflexivity.
+  - vm_compute. reflexivity.
+Qed.
+
+Example ex_uniform_applies :
+  Permutation (map fst (law1 (build ex_circ 2) ex_ts)) (ModelsA ex_circ 2 [2]) /\
+  Forall (fun e => (snd e == 1 / inject_Z (MCA ex_circ 2 [2%Z]))%Q) (law1 (build ex_circ 2) ex_ts).
+Proof.
+  destruct (C07_uniform_ideal_single ex_circ 2 [2] ex_ts ex_wf ex_in_range ex_temps_ok ex_or_no_true)
+    as [H1 [H2 _]]; [vm_compute; reflexivity|]. split; assumption.
+Qed.
+
+(* Outside the theorems (C07_valid is vacuous there, no stream satisfies the contract): an Or node
+   whose children with non-zero temp are all hidden true nodes, e.g. the check_wf-accepted circuit
+   [Lit 1; TrueN; Or [1]; And [2; 0]] over 1 feature (c2d text "nnf 4 3 1 / L 1 / A 0 / O 0 1 1 /
+   A 2 0 2").  MCA = 1, but the Rust builds an empty weight vector and panics in
+   WeightedAliasIndex::new(..).unwrap(); sample_node has no Panic outcome for this. *)
+Example ex_or_over_true :
+  let c := [Lit 1; TrueN; Or [1%nat]; And [2%nat; 0%nat]] in
+  check_wf c 1 = true /\ MCA c 1 [] = 1 /\
+  urs_choices_okb (build c 1) [] 1 [Split [1]; Perm [0%nat]; Perm [0%nat]; Perm [0%nat]] (fresh_scratch c) = false /\
+  urs_choices_okb (build c 1) [] 1 [Split [0]; Perm [0%nat]; Perm [0%nat]; Perm [0%nat]] (fresh_scratch c) = false.
+Proof. vm_compute. repeat split. Qed.
+
+Example ex_clean : Clean ex_circ ex_s0.
+Proof. apply fresh_clean. Qed.
